@@ -8,7 +8,7 @@ if ! git -C /repo diff --quiet; then echo "/repo has uncommitted changes; refusi
 IDS=("$@"); [ ${#IDS[@]} -eq 0 ] && IDS=($(ls seeded))
 for id in "${IDS[@]}"; do
   d="seeded/$id"; prop="$(python3 -c "import json;print(json.load(open('$d/meta.json'))['property'])")"
-  git -C /repo apply "$d/patch.diff" || { echo "$id: patch does not apply"; continue; }
+  git -C /repo apply "/verif/$d/patch.diff" || { echo "$id: patch does not apply"; continue; }
   out="$(./check "$prop" quick 2>/dev/null)"; rc=$?
   git -C /repo checkout -- .
   first="$(echo "$out" | grep -m1 -A1 VIOLATION | tail -1 | cut -c1-300)"
